@@ -524,3 +524,148 @@ def t_literal_merge(facts, res, tier):
                 res.inst(key, True, {"function": f["name"], "name": nm, "inserted_before": ok})
                 if not ok:
                     res.fail(key, facts.where(f, n), "%s builds Expr::TmpId(%s) without putting that name into the literal table first" % (f["name"], nm))
+
+
+# ----------------------------------------------------------------------------- constant arithmetic
+
+
+CONST_CTORS = {("ExprType", "Immediate", 0), ("Expr", "Integer", 0), ("ExprType", "Absolute", 2), ("VariableValue", "Int", 0)}
+CONST_SOURCES = ("parse_calc", "parse_int", "parse_sizeof")
+OVERFLOWING = ("+", "-", "*", "<<")
+
+
+def _const_origin(e, env, depth=0):
+    """Is e an i32 taken from the source text (a constant the user wrote, or arithmetic on one)?"""
+    e = strip(e)
+    if not isinstance(e, dict) or depth > 5:
+        return None
+    k = e.get("k")
+    if k == "path" and len(e["segs"]) == 1:
+        b = env.get(e["segs"][0])
+        if b is None:
+            return None
+        if b.ctor and (b.ctor[0], b.ctor[-1], b.idx) in CONST_CTORS:
+            return "::".join(b.ctor)
+        if b.src == "closure" and getattr(b, "ty", None) == "const-operand":
+            return "operand of a constant evaluator"
+        if b.src == "let" and b.init is not None:
+            return _const_origin(b.init, env, depth + 1)
+        return None
+    if k == "mcall" and e["method"] in CONST_SOURCES:
+        return e["method"] + "()"
+    if k == "try":
+        return _const_origin(e["e"], env, depth + 1)
+    if k == "binary" and e["op"] in ("+", "-", "*", "<<", ">>", "/", "%"):
+        return _const_origin(e["l"], env, depth + 1) or _const_origin(e["r"], env, depth + 1)
+    if k == "unary" and e["op"] == "-":
+        return _const_origin(e["e"], env, depth + 1)
+    if k == "cast":
+        return _const_origin(e["e"], env, depth + 1)
+    if k == "if":
+        return _const_origin(_tail(e.get("then")), env, depth + 1) or _const_origin(_tail(e.get("else")), env, depth + 1)
+    if k == "match":
+        for a in e.get("arms", []):
+            o = _const_origin(_tail(a.get("body")), env, depth + 1)
+            if o:
+                return o
+    if k == "block":
+        return _const_origin(_tail(e), env, depth + 1)
+    return None
+
+
+def _tail(n):
+    while isinstance(n, dict) and n.get("k") == "block" and n.get("stmts"):
+        n = n["stmts"][-1]
+    return n
+
+
+def _int_lit(e):
+    e = strip(e)
+    if isinstance(e, dict) and e.get("k") == "lit" and e.get("ty") == "int":
+        try:
+            return int(str(e["v"]).replace("_", ""), 0)
+        except ValueError:
+            return None
+    return None
+
+
+def _bounded(e, doms):
+    """A dominating comparison of the same expression with a literal bounds it from above
+    (and, for the uses here, makes overflow impossible): `if value < 8 {..}`, `== 8`."""
+    t = _norm(strip(e))
+    for d in doms:
+        if d[0] == "cond" and d[2]:
+            for n in walk(d[1]):
+                if n.get("k") == "binary" and n["op"] in ("<", "<=", "==") and _norm(strip(n["l"])) == t and _int_lit(n["r"]) is not None:
+                    return True
+        if d[0] == "arm" and _norm(strip(d[1])) == t and isinstance(d[2], dict) and d[2].get("k") in ("lit", "range"):
+            return True
+    return False
+
+
+@rule("T-CONST-ARITH", floor=10,
+      text="arithmetic on constants taken from the source text cannot overflow: wherever a value that comes from an integer the user wrote (Expr::Integer, "
+           "ExprType::Immediate, the constant offset of an Absolute operand, the operands of the constant-expression evaluator, results of parse_calc / "
+           "parse_int) is combined with another such value or with a literal by + - * << or negated, or two such values are divided or shifted, the "
+           "operation is a checked_* / wrapping_* call (or the operand is bounded by an enclosing comparison): a bare operator panics on overflow in "
+           "a debug build and, for i32::MIN / -1 and out-of-range shifts, in every build")
+def t_const_arith(facts, res, tier):
+    n_sites = n_safe = 0
+    for fn in facts.fns:
+        if fn["file"].endswith("/cpp.rs") or "/tests/" in fn["file"]:
+            continue
+        # closures given to map_infix / map_prefix in a function that evaluates to i32: their operands are constants
+        evaluator = fn["ret"].replace(" ", "").startswith("Result<i32,")
+        sc = scoped(fn)
+        if evaluator:
+            for n, env, doms in sc:
+                if n.get("k") == "mcall" and n["method"] in ("map_infix", "map_prefix", "map_postfix") and n.get("args") and n["args"][0].get("k") == "closure":
+                    for p in n["args"][0].get("params", []):
+                        nm = p.get("name")
+                        if nm in ("lhs", "rhs"):
+                            for n2, env2, doms2 in sc:
+                                b = env2.get(nm)
+                                if b is not None and b.src == "closure":
+                                    b.ty = "const-operand"
+        seen = set()
+        for n, env, doms in sc:
+            k = n.get("k")
+            desc = None
+            if k == "binary" and n["op"] in ("+", "-", "*", "<<", ">>", "/", "%"):
+                kl, kr = _const_origin(n["l"], env), _const_origin(n["r"], env)
+                ll, lr = _int_lit(n["l"]), _int_lit(n["r"])
+                bl, br = (kl and _bounded(n["l"], doms)), (kr and _bounded(n["r"], doms))
+                op = n["op"]
+                if kl and kr and not (bl and br):
+                    desc = "both operands come from the source"
+                elif op in OVERFLOWING and ((kl and not bl and lr is not None and not (op in ("+", "-") and lr == 0) and not (op == "*" and lr in (0, 1))) or
+                                             (kr and not br and ll is not None and not (op == "<<") and not (op in ("+",) and ll == 0) and not (op == "*" and ll in (0, 1)))):
+                    desc = "a source constant combined with a literal"
+                elif op == "<<" and kr and not br:
+                    desc = "shift count from the source"
+                elif op in OVERFLOWING and ((kl and not bl and lr is None) or (kr and not br and ll is None)) and op != "<<":
+                    desc = "a source constant combined with another value"
+                # counted as safe instance otherwise
+                if (kl or kr) and desc is None:
+                    n_safe += 1
+            elif k == "unary" and n["op"] == "-" and _const_origin(n["e"], env) and _int_lit(n["e"]) is None:
+                desc = "negation of a source constant"
+            elif k == "assignop" and n["op"] in OVERFLOWING and _const_origin(n["r"], env) and not _bounded(n["r"], doms):
+                desc = "compound assignment of a source constant"
+            if desc is None:
+                continue
+            n_sites += 1
+            key = "T-CONST-ARITH:%s:%s" % (fn["name"], _norm(n)[:40])
+            if key in seen:
+                continue
+            seen.add(key)
+            res.inst(key, True, {"function": fn["name"], "expression": expr_text(n)[:80], "why": desc})
+            res.fail(key, facts.where(fn, n), "%s computes `%s` with a bare operator (%s): an overflow panics (i32::MAX + 1, 65536 * 65536, 1 << 40, -(i32::MIN), i32::MIN / -1) instead of being reported or wrapped" % (fn["name"], expr_text(n)[:80], desc))
+    # checked/wrapping calls on constants are the positive instances
+    for fn in facts.fns:
+        if fn["file"].endswith("/cpp.rs") or "/tests/" in fn["file"]:
+            continue
+        for n in walk(fn["body"]):
+            if n.get("k") == "mcall" and re.match(r"^(checked|wrapping|saturating|overflowing)_(add|sub|mul|div|rem|neg|shl|shr)$", n["method"]):
+                res.inst("T-CONST-ARITH:%s:%s:%s" % (fn["name"], n["method"], _norm(n)[:40]), True, {"function": fn["name"], "call": expr_text(n)[:80]})
+    res.note("%d bare operations on source constants, %d constant operations that cannot overflow (comparisons with literals, shifts by literal counts, bitwise)" % (n_sites, n_safe))
